@@ -734,7 +734,8 @@ def showE (r : Except String (Hdr × List Row)) : String :=
   | .error e => e
 
 def hexStr (t : String) : Option String :=
-  if t = "-" then some "" else (unhex t).map (fun bs => String.ofList (bs.map Char.ofNat))
+  -- the bytes are UTF-8 (Go strings); an invalid byte becomes U+FFFD, as in every loop of Go over the runes of a string
+  if t = "-" then some "" else (unhex t).map (fun bs => String.ofList ((Uni.decodeRunes bs).map Char.ofNat))
 
 /-- header description: `<n> { view name isJoin nAliases alias… number fromTable identifier }*` (strings in hex, `-` = empty) -/
 def pHdr : Nat → P Hdr
